@@ -73,8 +73,6 @@ Proof.
   constructor; [|constructor]. eexists. split; reflexivity.
 Qed.
 
-Lemma w1_plug_tracks : plug_tracks_distinct w1 [[(1%N, 0%N)]].
-Proof. repeat constructor. apply tracks_distinct_b_sound. vm_compute. reflexivity. Qed.
 
 Lemma w1_diverges :
   snd (plug w1 (w_state w1) [w_p1] w_socket) = POk /\
@@ -94,15 +92,16 @@ Proof.
   constructor; [|constructor]. eexists. split; reflexivity.
 Qed.
 
-Lemma w2_plug_tracks : plug_tracks_distinct w2 [[(0%N, 0%N)]].
-Proof. repeat constructor. apply tracks_distinct_b_sound. vm_compute. reflexivity. Qed.
 
 Lemma w2_diverges :
   snd (plug w2 (w_state w2) [w_p1] w_socket) = PNoPlugHappened /\
   suppliers (pu_name_text w2) (u_sub w2) [[(0%N, 0%N)]] (1%N, 0%N) = [(0, 0%N)].
 Proof. split; vm_compute; reflexivity. Qed.
 
-(** ** 3. one plug exports two names on one track, both compatible with the one socket import *)
+(** ** 3. (historical, before repair 7db12e7) one plug exports two names on one track, both compatible
+       with the one socket import: the raw export-first pairs target that import twice, and the
+       unrepaired plug.rs failed with ArgumentAlreadyPassed on a single plug.  The repaired algorithm
+       keeps one pair per import (exact name preferred) and the plug succeeds. *)
 Definition w3 := w_universe [(0%N, 0%N)] [(0%N, 0%N); (1%N, 0%N)] [].
 
 Lemma w3_case : plug_case w3 (w_state w3) [w_p1] w_socket [(0%N, 0%N)] [(2%N, 0%N)] [[(0%N, 0%N); (1%N, 0%N)]].
@@ -114,8 +113,13 @@ Qed.
 Lemma w3_socket_tracks : socket_tracks_distinct w3 [(0%N, 0%N)].
 Proof. apply tracks_distinct_b_sound. vm_compute. reflexivity. Qed.
 
-Lemma w3_diverges :
-  snd (plug w3 (w_state w3) [w_p1] w_socket) = PGraphError ArgumentAlreadyPassed /\
+Lemma w3_raw_pairs_collide :
+  plug_matches (pu_name_text w3) (u_sub w3) [(0%N, 0%N)] [(0%N, 0%N); (1%N, 0%N)] = [(0%N, 0%N); (1%N, 0%N)] /\
+  plug_pairs (pu_name_text w3) (u_sub w3) [(0%N, 0%N)] [(0%N, 0%N); (1%N, 0%N)] = [(0%N, 0%N)].
+Proof. split; vm_compute; reflexivity. Qed.
+
+Lemma w3_repaired :
+  snd (plug w3 (w_state w3) [w_p1] w_socket) = POk /\
   suppliers (pu_name_text w3) (u_sub w3) [[(0%N, 0%N); (1%N, 0%N)]] (0%N, 0%N) = [(0, 0%N)].
 Proof. split; vm_compute; reflexivity. Qed.
 
@@ -130,8 +134,6 @@ Proof.
   constructor; [|constructor; [|constructor]]; eexists; split; reflexivity.
 Qed.
 
-Lemma w4_plug_tracks : plug_tracks_distinct w4 [[(0%N, 0%N)]; [(1%N, 0%N)]].
-Proof. repeat constructor; apply tracks_distinct_b_sound; vm_compute; reflexivity. Qed.
 
 Lemma w4_diverges :
   snd (plug w4 (w_state w4) [w_p1; w_p2] w_socket) = POk /\
@@ -143,11 +145,6 @@ Lemma w1_not_socket_tracks : ~ socket_tracks_distinct w1 [(0%N, 0%N); (1%N, 0%N)
 Proof.
   intros T. assert (0%N = 1%N); [|discriminate].
   apply T; [left; reflexivity|right; left; reflexivity|vm_compute; reflexivity].
-Qed.
-Lemma w3_not_plug_tracks : ~ plug_tracks_distinct w3 [[(0%N, 0%N); (1%N, 0%N)]].
-Proof.
-  intros T. inversion T as [|? ? T0 _]; subst. assert (0%N = 1%N); [|discriminate].
-  apply T0; [left; reflexivity|right; left; reflexivity|vm_compute; reflexivity].
 Qed.
 
 (** ** 0. a case in which all hypotheses hold and the plug succeeds (non-vacuity):
@@ -161,8 +158,6 @@ Proof.
 Qed.
 Lemma w0_socket_tracks : socket_tracks_distinct w0 [(0%N, 0%N)].
 Proof. apply tracks_distinct_b_sound. vm_compute. reflexivity. Qed.
-Lemma w0_plug_tracks : plug_tracks_distinct w0 [[(1%N, 0%N)]; []].
-Proof. repeat constructor; apply tracks_distinct_b_sound; vm_compute; reflexivity. Qed.
 Lemma w0_ok : snd (plug w0 (w_state w0) [w_p1; w_p2] w_socket) = POk /\
               suppliers (pu_name_text w0) (u_sub w0) [[(1%N, 0%N)]; []] (0%N, 0%N) = [(0, 1%N)].
 Proof. split; vm_compute; reflexivity. Qed.
